@@ -62,6 +62,9 @@ REVERTS = [
     ('F62-inline-signature-type', '631e2fe', {'C02': ['S02-3:inline-type'], 'C11': ['S02-3:inline-type']}),
     ('F65-v6-unsupported-curve-overread', '7bdcc4b', {'C05': ['S05-16:total-minus-prefix:types::params::public::ecdsa']}),
     ('F66-jpeg-header-length', 'a5c47b1', {'C05': ['S05-14:constant-length-variant-checked']}),
+    ('F69-message-parser-drains', 'c57b8f3', {'C17': ['S17-4:message-parser-drains']}),
+    ('F67-ecdh-zero-padding', '5930fe1', {'C12': ['ecdh:unpad-lower-bound']}),
+    ('F68-armor-leading-dashes', 'cfc42e1', {'C10': ['S10-7:leading-text-skipped-to-full-opener']}),
 ]
 tests = [dict(name='revert:' + n, kind='revert-fix', commit=c, expect=e) for n, c, e in REVERTS]
 try:
